@@ -4,6 +4,7 @@ package main
 
 import (
 	"fmt"
+	"go/constant"
 	"go/token"
 	"go/types"
 	"strings"
@@ -143,6 +144,7 @@ func checkC09(P *Program, r *Result, tier string) {
 		}
 		r.add("FREE-THEN-FORGET", shortName(fn), "free", "field "+field+" is overwritten on every path after the Free", P.pos(instrPos(s.Call)), !leak, detail)
 	}
+	ownerFlagRule(P, r, "OWNER-GUARD")
 	// ---- parking in the reader requires ownership ----
 	for _, fn := range P.reachable([]*ssa.Function{P.Method(relBufiox, "DefaultReader", "Next"), P.Method(relBufiox, "DefaultReader", "Release")}, inBufiox) {
 		if len(fn.Params) == 0 || !typeIsPtrTo(fn.Params[0].Type(), "DefaultReader") {
@@ -286,6 +288,7 @@ func checkC09(P *Program, r *Result, tier string) {
 // be handed (back) to it — frees and parking are guarded by the ownership flags.
 func ownerGuardRules(P *Program, r *Result, rule string) {
 	inBufiox := func(f *ssa.Function) bool { return fnPkgPath(f) != modPath+"/"+relBufiox }
+	ownerFlagRule(P, r, rule)
 	for _, s := range allFreeSites(P) {
 		fn := s.Fn
 		field, _ := freedField(fn, s.Call.Common().Args[0])
@@ -312,3 +315,34 @@ func ownerGuardRules(P *Program, r *Result, rule string) {
 }
 
 func init() { register("C09", "other", checkC09) }
+
+// ownerFlagRule: the reader's ownership flag may only be cleared for a buffer the reader has just allocated itself.
+func ownerFlagRule(P *Program, r *Result, rule string) {
+	inBufiox := func(f *ssa.Function) bool { return fnPkgPath(f) != modPath+"/"+relBufiox }
+	A := newAnalysis(P)
+	for _, fn := range P.reachable([]*ssa.Function{P.Method(relBufiox, "DefaultReader", "Next"), P.Method(relBufiox, "DefaultReader", "Release")}, inBufiox) {
+		if len(fn.Params) == 0 || !typeIsPtrTo(fn.Params[0].Type(), "DefaultReader") {
+			continue
+		}
+		// the ownership flag may only be cleared for a buffer this reader has just allocated itself
+		for _, st := range storesTo(fn, "bufReadOnly") {
+			k, isC := st.Val.(*ssa.Const)
+			if !isC || k.Value == nil || constant.BoolVal(k.Value) {
+				continue
+			}
+			fa := A.fa(fn)
+			ver := fa.mem.versionAt(st, "P:"+fn.Params[0].Name()+".buf")
+			ok, detail := false, "the buffer in place when the flag is cleared is not known to be one this reader allocated"
+			if ver != nil && ver.Kind == mStore {
+				if fresh, why := onlyFresh(rootsOf(ver.Val)); fresh {
+					ok, detail = true, ""
+				} else {
+					detail = "the buffer stored before clearing the flag comes from " + why
+				}
+			} else if ver != nil && ver.Kind == mPhi {
+				detail = "on some path the buffer was not replaced before the ownership flag is cleared (a caller-owned buffer would later be recycled or overwritten)"
+			}
+			r.add(rule, shortName(fn), "flag", "bufReadOnly is cleared only right after the buffer was replaced by a pool allocation of this reader", P.pos(instrPos(st)), ok, detail)
+		}
+	}
+}
